@@ -1,6 +1,7 @@
 package main
 
 import (
+	"go/types"
 	"fmt"
 	"sort"
 	"strings"
@@ -468,6 +469,67 @@ func checkC06(c *Ctx, r *Report) {
 		})
 	}
 	r.Floor("C06.R1", nSet, 2, "conditional header assignments")
+	// ... and what is stored as the entry's validators is what the origin sent with that response: the
+	// ETag / Last-Modified fields of the stored object derive from the response's own headers and from
+	// nothing else (in particular not from the clock: an invented Last-Modified makes the origin answer
+	// 304 to a date it never issued, and the stale body stays in service)
+	nStoreV := 0
+	for _, f := range li.Fns {
+		if originPkgPath(f) != proxyPkg {
+			continue
+		}
+		eachInstr(f, func(in ssa.Instruction) {
+			st, ok := in.(*ssa.Store)
+			if !ok {
+				return
+			}
+			fv, _, is := fieldOf(st.Addr)
+			if !is || (fv.Name() != "ETag" && fv.Name() != "LastModified") {
+				return
+			}
+			if n, okN := fv.Pkg().Scope().Lookup("cachedRequestInfo").(*types.TypeName); !okN || n == nil {
+				return
+			}
+			owner := false
+			if stt, okS := fv.Pkg().Scope().Lookup("cachedRequestInfo").Type().Underlying().(*types.Struct); okS {
+				for i := 0; i < stt.NumFields(); i++ {
+					if stt.Field(i) == fv {
+						owner = true
+					}
+				}
+			}
+			if !owner {
+				return
+			}
+			nStoreV++
+			hdr := map[string]string{"ETag": "ETag", "LastModified": "Last-Modified"}[fv.Name()]
+			fromHeader, fromClock, other := false, false, ""
+			derivesFromDeep(st.Val, nil, func(v ssa.Value, _ dctx) bool {
+				call, ok := v.(*ssa.Call)
+				if !ok {
+					return false
+				}
+				switch n := calleeName(call); n {
+				case "(net/http.Header).Get", "(net/http.Header).Values":
+					a := callArgs(call)
+					if name, isC := constString(a[1]); isC && name == hdr {
+						if root, pth := fieldPath(a[0]); len(pth) > 0 && pth[len(pth)-1] == "Header" {
+							if _, isResp := root.Type().Underlying().(*types.Pointer); isResp && strings.HasSuffix(root.Type().String(), "net/http.Response") {
+								fromHeader = true
+							}
+						}
+					} else {
+						other = "header " + atomStr(a[1])
+					}
+				case "time.Now", "time.Since", "time.Until":
+					fromClock = true
+				}
+				return false
+			})
+			r.Check(fromHeader && !fromClock && other == "", "C06.R1", fnKey(f)+": stored "+fv.Name()+" is the origin's "+hdr, c.InstrPos(st), "derives from resp.Header.Get(\""+hdr+"\") only (zero / empty when the origin sent none)", "the validator stored with the entry is not (only) the "+hdr+" the origin sent with this response (clock="+fmt.Sprint(fromClock)+" "+other+"): revalidation then asks the origin with a validator it never issued, and clients are handed it as if it were the origin's")
+		})
+	}
+	r.Floor("C06.R1", nStoreV, 2, "stores of the entry's validators")
 
 	// ---- R2
 	for _, f := range c.FuncsNamed("(*" + proxyPkg + ".Proxy).handleHTTP") {
@@ -496,16 +558,45 @@ func checkC06(c *Ctx, r *Report) {
 	for _, f := range c.FuncsNamed("(*" + headersPkg + ".HeaderDirectives).StripRegularConditionals") {
 		for _, fld := range []string{"IfMatch", "IfModifiedSince", "IfNoneMatch", "IfUnmodifiedSince"} {
 			fld := fld
+			// a removal: a call, on this directive, of a method that deletes its header from the map it is
+			// given on every one of its own paths (not only when the proxy managed to parse the value)
+			deletesAlways := func(g *ssa.Function) bool {
+				if g == nil || g.Blocks == nil || len(g.Params) < 2 {
+					return false
+				}
+				isDel := func(in ssa.Instruction) bool {
+					x, ok := in.(*ssa.Call)
+					if !ok {
+						return false
+					}
+					if b, isB := x.Call.Value.(*ssa.Builtin); isB && b.Name() == "delete" {
+						if _, pth := fieldPath(x.Call.Args[1]); resolveVal(x.Call.Args[0]) == ssa.Value(g.Params[1]) && len(pth) > 0 && pth[len(pth)-1] == "name" {
+							return true
+						}
+					}
+					if calleeName(x) == "(net/http.Header).Del" {
+						a := callArgs(x)
+						if _, pth := fieldPath(a[1]); resolveVal(a[0]) == ssa.Value(g.Params[1]) && len(pth) > 0 && pth[len(pth)-1] == "name" {
+							return true
+						}
+					}
+					return false
+				}
+				return len(exitsFromEntryAvoiding(g, isDel, nil)) == 0
+			}
 			marker := func(in ssa.Instruction) bool {
 				x, ok := in.(*ssa.Call)
 				if !ok || !strings.HasSuffix(calleeName(x), ".Header).SyncRemove") {
+					return false
+				}
+				if !deletesAlways(unwrapSynthetic(staticCallee(x))) {
 					return false
 				}
 				_, p := fieldPath(callArgs(x)[0])
 				return len(p) > 0 && p[len(p)-1] == fld
 			}
 			ex := exitsFromEntryAvoiding(f, marker, nil)
-			r.Check(len(ex) == 0, "C06.R2", "StripRegularConditionals removes "+fld+" on every path", c.Pos(f.Pos()), "no return before the removal", "StripRegularConditionals can return without removing "+fld+" (conditional strip): the client's validator reaches the origin and its 304 is taken for the proxy's own revalidation")
+			r.Check(len(ex) == 0, "C06.R2", "StripRegularConditionals removes "+fld+" on every path", c.Pos(f.Pos()), "no return before the removal", "StripRegularConditionals can return without removing "+fld+" from the request (a path skips the removal, or the remover deletes the header only when the proxy could parse its value — an If-Modified-Since in the obsolete RFC 850 / asctime formats is then forwarded): the client's validator reaches the origin and its 304 is taken for the proxy's own revalidation")
 		}
 	}
 	sort.Strings(stripped)
